@@ -58,7 +58,7 @@ const TYPES: &[RecvTy] = &[
     RecvTy { name: "Nest", ty: "Nest", literals: &[("Nest { inner: St { v: 2 }, tag: 30 }", 32)], digest: "self.inner.v + self.tag", has_inherent: true },
 ];
 
-const FORMS: &[&str] = &["concrete-ufcs", "generic-dot", "generic-ufcs", "dyn-let", "dyn-param", "dyn-vec-element", "second-trait-same-name", "trait-on-dyn-of-other-trait", "inherent-dot", "inherent-ufcs"];
+const FORMS: &[&str] = &["concrete-ufcs", "generic-dot", "generic-ufcs", "impl-method-bound", "dyn-let", "dyn-param", "dyn-vec-element", "second-trait-same-name", "trait-on-dyn-of-other-trait", "inherent-dot", "inherent-ufcs"];
 const RECV_FORMS: &[&str] = &["variable", "literal", "field", "annotated-call"];
 
 struct Built {
@@ -134,6 +134,7 @@ fn build_program(rng: &mut Rng, type_idx: &[usize]) -> Built {
                     "concrete-ufcs" => emit(&mut main, &mut expected, &mut cells, &pre, format!("Tr1::m({}, {})", recv, a), code + a + dg, cell),
                     "generic-dot" => emit(&mut main, &mut expected, &mut cells, &pre, format!("g_dot({}, {})", recv, a), code + a + dg, cell),
                     "generic-ufcs" => emit(&mut main, &mut expected, &mut cells, &pre, format!("g_ufcs({}, {})", recv, a), code + a + dg, cell),
+                    "impl-method-bound" => emit(&mut main, &mut expected, &mut cells, &pre, format!("hd.hd_dot({r}, {a}) + Hd::hd_path(hd, {r}, 0) + hd.hd_plain({r}, 0)", r = recv, a = a), 3 * (code + dg) + a, cell),
                     "dyn-let" => emit(&mut main, &mut expected, &mut cells, &format!("{}    let d{}: dyn Tr1 = {};\n", pre, v, recv), format!("Tr1::m(d{}, {})", v, a), code + a + dg, cell),
                     "dyn-param" => emit(&mut main, &mut expected, &mut cells, &pre, format!("via_param({}, {})", recv, a), code + a + dg, cell),
                     "dyn-vec-element" => emit(
@@ -168,7 +169,8 @@ fn build_program(rng: &mut Rng, type_idx: &[usize]) -> Built {
     }
     s.push_str("impl Tr2 for dyn Tr1 {\n    fn m(self: dyn Tr1, a: int32) -> int32 { 900000000 + a + Tr1::m(self, 0) }\n}\n");
     s.push_str("fn g_dot[T: Tr1](t: T, a: int32) -> int32 { t.m(a) }\nfn g_ufcs[T: Tr1](t: T, a: int32) -> int32 { Tr1::m(t, a) }\nfn g2_dot[T: Tr2](t: T, a: int32) -> int32 { t.m(a) }\nfn g_name[T: Tr1](t: T) -> string { t.n() }\nfn via_param(d: dyn Tr1, a: int32) -> int32 { Tr1::m(d, a) }\n");
-    s.push_str("fn main() -> unit {\n");
+    s.push_str("struct Hd { h: int32 }\nimpl Hd {\n    fn hd_dot[T: Main::Tr1](self: Hd, t: T, a: int32) -> int32 { t.m(a) }\n    fn hd_path[T: Main::Tr1](self: Hd, t: T, a: int32) -> int32 { Tr1::m(t, a) }\n    fn hd_plain[T: Tr1](self: Hd, t: T, a: int32) -> int32 { Main::Tr1::m(t, a) }\n}\n");
+    s.push_str("fn main() -> unit {\n    let hd: Hd = Hd { h: 0 };\n");
     s.push_str(&main);
     s.push_str("    ()\n}\n");
     Built { src: s.replace("Tr2", "Tr1x"), expected, cells }
@@ -337,8 +339,8 @@ const FOREIGN: &[ForeignTy] = &[
 ];
 
 fn build_foreign_project(rng: &mut Rng) -> (Vec<(std::path::PathBuf, String)>, Vec<String>, Vec<String>) {
-    let mut lib = String::from("package Lib\n\ntrait Tr1 {\n    fn zm(Self, int32) -> int32;\n    fn m(Self, int32) -> int32;\n    fn n(Self) -> string;\n}\n\nstruct St { v: int32 }\nenum En { A(int32), B, C(int32, bool) }\nenum Opt[T] { Som(T), Non }\nstruct Gn[T] { it: T }\nstruct Nest { inner: St, tag: int32 }\n\n");
-    let mut main = String::from("package Main\nimport Lib\n\nfn g_dot[T: Lib::Tr1](t: T, a: int32) -> int32 { t.m(a) }\nfn g_ufcs[T: Lib::Tr1](t: T, a: int32) -> int32 { Lib::Tr1::m(t, a) }\nfn via_param(d: dyn Lib::Tr1, a: int32) -> int32 { Lib::Tr1::m(d, a) }\n\nfn main() -> unit {\n");
+    let mut lib = String::from("package Lib\n\ntrait Tr1 {\n    fn zm(Self, int32) -> int32;\n    fn m(Self, int32) -> int32;\n    fn n(Self) -> string;\n}\n\nstruct St { v: int32 }\nenum En { A(int32), B, C(int32, bool) }\nenum Opt[T] { Som(T), Non }\nstruct Gn[T] { it: T }\nstruct Nest { inner: St, tag: int32 }\n\nstruct Tag { t: int32 }\n\nimpl Tag {\n    fn render_dot[T: Tr1](self: Tag, x: T, a: int32) -> int32 { x.m(a) }\n    fn render_path[T: Tr1](self: Tag, x: T, a: int32) -> int32 { Tr1::m(x, a) }\n}\n\nfn tag() -> Tag { Tag { t: 0 } }\n\n");
+    let mut main = String::from("package Main\nimport Lib\n\nfn g_dot[T: Lib::Tr1](t: T, a: int32) -> int32 { t.m(a) }\nfn g_ufcs[T: Lib::Tr1](t: T, a: int32) -> int32 { Lib::Tr1::m(t, a) }\nfn via_param(d: dyn Lib::Tr1, a: int32) -> int32 { Lib::Tr1::m(d, a) }\n\nstruct Loc { l: int32 }\n\nimpl Loc {\n    fn loc_dot[T: Lib::Tr1](self: Loc, x: T, a: int32) -> int32 { x.m(a) }\n    fn loc_path[T: Lib::Tr1](self: Loc, x: T, a: int32) -> int32 { Lib::Tr1::m(x, a) }\n}\n\nfn main() -> unit {\n    let tg: Lib::Tag = Lib::tag();\n    let lc: Loc = Loc { l: 0 };\n");
     let mut expected = Vec::new();
     let mut cells = Vec::new();
     for (k, t) in FOREIGN.iter().enumerate() {
@@ -391,6 +393,14 @@ fn build_foreign_project(rng: &mut Rng) -> (Vec<(std::path::PathBuf, String)>, V
             line(&mut main, format!("g_ufcs({}, {})", recv, a), code + a + dg, "generic-ufcs");
             a += 1;
             line(&mut main, format!("via_param({}, {})", recv, a), code + a + dg, "dyn-param");
+            // bounded generic METHODS of an impl block (in the trait's package with the bound spelled unqualified, and
+            // in Main with the qualified bound), dot and path form inside
+            a += 1;
+            line(&mut main, format!("tg.render_dot({}, {})", recv, a), code + a + dg, "impl-method-bound-dot");
+            a += 1;
+            line(&mut main, format!("Lib::Tag::render_path(tg, {}, {})", recv, a), code + a + dg, "impl-method-bound-path");
+            a += 1;
+            line(&mut main, format!("lc.loc_dot({}, {}) + Loc::loc_path(lc, {}, 0)", recv, a, recv), 2 * (code + dg) + a, "impl-method-bound-in-main");
             a += 1;
             line(&mut main, format!("{}.im({})", recv, a), code + 100_000 + a + inh_dg, "inherent-dot");
             a += 1;
